@@ -32,8 +32,28 @@ def make_like_blob(c):
     return loglike
 
 
+def prior32(u):
+    return (10.0 * u - 5.0).astype(np.float32)
+
+
+def like_kw(x, shift=0.0):
+    return -0.5 * float(np.sum((np.asarray(x, dtype=float) - 1.0) ** 2) / 0.25) + shift
+
+
 def run(c, seed, opts, n_total):
     o = dict(opts)
+    if o.get("special"):
+        kind = o.pop("special")
+        npart = o.pop("n_particles", 24)
+        if kind == "float32-prior":
+            s = tempest.Sampler(prior32, make_like(c), n_dim=2, n_particles=npart, random_state=seed, output_dir=tempfile.mkdtemp(prefix="out_", dir=BASE), **o)
+        else:
+            s = tempest.Sampler(prior, like_kw, n_dim=2, n_particles=npart, random_state=seed, output_dir=tempfile.mkdtemp(prefix="out_", dir=BASE),
+                                log_likelihood_kwargs=dict(shift=c), **o)
+        s.run(n_total=n_total, progress=False)
+        st = s.state
+        return dict(beta=np.array(st.get_history("beta")), logz=np.array(st.get_history("logz")), ess=np.array(st.get_history("ess")),
+                    u=st.get_history("u", flat=True), logl=st.get_history("logl", flat=True), final=s.evidence()[0], weights=None)
     if o.get("blobs_dtype") is not None:
         s = tempest.Sampler(prior, make_like_blob(c), n_dim=2, n_particles=o.pop("n_particles", 24), random_state=seed,
                             output_dir=tempfile.mkdtemp(prefix="out_", dir=BASE), **o)
@@ -63,7 +83,7 @@ def compare(a, b, c):
     if not np.allclose(a["ess"], b["ess"], rtol=1e-5, atol=1e-7):
         i = int(np.argmax(np.abs(a["ess"] - b["ess"])))
         return f"ESS sequence differs at iteration {i}: {a['ess'][i]!r} vs {b['ess'][i]!r}"
-    if not np.allclose(b["logl"], a["logl"] + c, rtol=1e-9, atol=1e-7 * (1 + abs(c))):
+    if not np.allclose(b["logl"], a["logl"] + c, rtol=1e-12, atol=1e-9 * (1 + abs(c))):
         return "stored log-likelihoods are not shifted by c"
     want = a["logz"] + a["beta"] * c
     tol = 1e-6 * (1 + abs(c))
@@ -132,13 +152,14 @@ def main():
     lattice = [dict(), dict(sample="rwm"), dict(resample="syst"), dict(clustering=False), dict(volume_variation=0.5),
                dict(sample="rwm", resample="syst", clustering=False), dict(vectorize=True), dict(cluster_every=2),
                dict(volume_variation=0.03, n_particles=64), dict(volume_variation=0.1, n_particles=48, sample="rwm"),
-               dict(blobs_dtype="float32"), dict(blobs_dtype="float64", resample="syst"), dict(pool=2), dict(pool=3, sample="rwm", clustering=False)]
+               dict(blobs_dtype="float32"), dict(blobs_dtype="float64", resample="syst"), dict(pool=2), dict(pool=3, sample="rwm", clustering=False),
+               dict(special="float32-prior"), dict(special="float32-prior", sample="rwm"), dict(special="kwargs-shift"), dict(special="kwargs-shift", pool=2)]
     shifts = [3.0, -250.0, 1000.0, -1000.0]
     cwd = os.getcwd()
     os.chdir(tempfile.mkdtemp(prefix="cwd_", dir=BASE))
     try:
         for opts, c in itertools.product(lattice, shifts):
-            if "pool" in opts and c not in (3.0, -1000.0):
+            if ("pool" in opts or "special" in opts) and c not in (3.0, -1000.0):
                 continue
             tried += 1
             try:
